@@ -21,6 +21,7 @@ def recheckAfterAdd : Bool := false
 def deleteBeforeDrain : Bool := false
 def remoteRecheckAfterAdd : Bool := false
 def connectionDeletedBeforeNodeDown : Bool := false
+def drainOrder : List (String × Bool) := []
 end ErgoVerif.Gen.LinkRace
 `
 
@@ -192,6 +193,56 @@ func genLinkRace() (string, error) {
 	}
 	fmt.Fprintf(&sb, "/-- every RouteLink*/RouteMonitor* with a remote target looks at the connection table again after inserting the relation (and compares with the connection the request went over) -/\ndef remoteRecheckAfterAdd : Bool := %s\n", leanBool(remoteAll))
 	fmt.Fprintf(&sb, "/-- unregisterConnection deletes the connection from the table before RouteNodeDown drains the relations -/\ndef connectionDeletedBeforeNodeDown : Bool := %s\n", leanBool(cdel < cdown))
+	// ---- every way a target disappears: the table entry goes before the relations on it are drained
+	order := func(fd *ast.FuncDecl, del string, drain string) (bool, error) {
+		if fd == nil {
+			return false, fmt.Errorf("function for %s / %s not found", del, drain)
+		}
+		d, r := 0, 0
+		ast.Inspect(fd.Body, func(n ast.Node) bool {
+			if c, ok := n.(*ast.CallExpr); ok {
+				fn := selName(c.Fun)
+				if (fn == del || strings.HasSuffix(fn, "."+del)) && d == 0 {
+					d = int(c.Pos())
+				}
+				if (fn == drain || strings.HasSuffix(fn, "."+drain)) && r == 0 {
+					r = int(c.Pos())
+				}
+			}
+			return true
+		})
+		if d == 0 || r == 0 {
+			return false, fmt.Errorf("%s: %s / %s not found", fd.Name.Name, del, drain)
+		}
+		return d < r, nil
+	}
+	pf, err := parseFile("node/process.go")
+	if err != nil {
+		return "", err
+	}
+	type site struct {
+		name       string
+		fd         *ast.FuncDecl
+		del, drain string
+	}
+	sites := []site{
+		{"unregisterProcess/pid", up, "processes.Delete", "RouteTerminatePID"},
+		{"unregisterProcess/name", up, "names.Delete", "RouteTerminateProcessID"},
+		{"unregisterProcess/alias", up, "aliases.Delete", "RouteTerminateAlias"},
+		{"unregisterProcess/event", up, "events.Delete", "RouteTerminateEvent"},
+		{"UnregisterName", funcDecl(nf, "node", "UnregisterName"), "names.LoadAndDelete", "RouteTerminateProcessID"},
+		{"DeleteAlias", funcDecl(pf, "process", "DeleteAlias"), "unregisterAlias", "RouteTerminateAlias"},
+		{"unregisterEvent", funcDecl(nf, "node", "unregisterEvent"), "events.Delete", "RouteTerminateEvent"},
+	}
+	var orows []string
+	for _, st := range sites {
+		ok, err := order(st.fd, st.del, st.drain)
+		if err != nil {
+			return "", err
+		}
+		orows = append(orows, fmt.Sprintf("  (\"%s\", %s)", st.name, leanBool(ok)))
+	}
+	sb.WriteString("/-- (site, the table entry is removed before the relations on the target are drained) -/\ndef drainOrder : List (String × Bool) := [\n" + strings.Join(orows, ",\n") + "]\n")
 	sb.WriteString("end ErgoVerif.Gen.LinkRace\n")
 	return sb.String(), nil
 }
